@@ -2,7 +2,7 @@
    into an equal value, consuming exactly the characters written, from a String and from a File.
    Only statements closed by `exact`, each followed by Print Assumptions.
    rt_cfg = the data re-extracted from the C text (escape tables, `continue`, "%lf", sign rule). *)
-From CelloV Require Import Generated RoundTrip RoundTripProofs RoundTripInst.
+From CelloV Require Import Generated RoundTrip RoundTripProofs RoundTripFloat RoundTripInst.
 
 (* the C text still has the shape the model encodes, and its escape tables are inverse to each other *)
 Theorem c15_source_shape : config_ok rt_cfg.
@@ -45,8 +45,69 @@ Theorem c15_look_without_continue_refuted :
 Proof. exact RoundTripInst.rt_look_without_continue_refuted. Qed.
 Print Assumptions c15_look_without_continue_refuted.
 
+(* Float, core arithmetic (full statement): for every double x = mx 2^ex and every printed precision p,
+   the nearest-even binary64 (m, e) of the decimal that "%.pf" prints for x satisfies
+   |m 2^e - mx 2^ex| <= 10^-p   (both sides multiplied by 10^p 2^1074 to stay in Z) *)
+Theorem c15_float_value_roundtrip : forall (pd : nat) (mx : N) (ex : Z),
+  (Z.of_N mx < 2 ^ 53)%Z -> (-1074 <= ex)%Z ->
+  let r := round_bin 53 (-1074) (scaled_round pd mx ex) (pow10 pd) in
+  (-1074 <= snd r)%Z /\
+  (Z.abs (sval (-1074) (pow10 pd) (fst r) (snd r) - sval (-1074) (pow10 pd) mx ex) <= 2 ^ 1074)%Z.
+Proof. exact RoundTripFloat.float_value_roundtrip. Qed.
+Print Assumptions c15_float_value_roundtrip.
+
+(* Float through show / look (partial: the packing of (sign, m, e) into 64 bits by encode_double and
+   its inverse decode_double are validated by the correspondence, not proved inverse here):
+   the text show writes for a finite double is read back by look, consuming exactly that text, into
+   a double within 10^-6 of the original *)
+Theorem c15_float_show_look_partial : forall b rest, finite b -> stops_float rest ->
+  exists b', look_value rt_cfg TFloat (show_value rt_cfg (VFloat b) ++ rest)%list
+             = Some (VFloat b', length (show_value rt_cfg (VFloat b)))
+             /\ float_close 6 b b'.
+Proof. exact RoundTripInst.rt_float_show_look. Qed.
+Print Assumptions c15_float_show_look_partial.
+
+(* sequences of Ints, Floats and Strings written with %$, "%li" or a plain "%.pf", separated by literal
+   text, at any start position, String sink and source (partial only in the Float clause, as above) *)
+Theorem c15_seq_string_partial : forall its sits pre rest, wf_seq rt_cfg its sits rest ->
+  exists vs',
+    scan_str rt_cfg (fst (print_to_string rt_cfg pre (length pre) its) ++ rest)%list (length pre) sits nil
+    = SOk vs' (snd (print_to_string rt_cfg pre (length pre) its))
+    /\ List.Forall2 value_close (values_of its) vs'.
+Proof. exact RoundTripInst.rt_seq_string. Qed.
+Print Assumptions c15_seq_string_partial.
+
+(* the same through a File *)
+Theorem c15_seq_file_partial : forall its sits old rest, wf_seq rt_cfg its sits rest -> lits_plain its ->
+  exists vs',
+    scan_file rt_cfg (List.skipn (length old) (fst (print_to_file rt_cfg old (length old) its) ++ rest)%list)
+      (length old) sits nil
+    = SOk vs' (snd (print_to_file rt_cfg old (length old) its))
+    /\ List.Forall2 value_close (values_of its) vs'.
+Proof. exact RoundTripInst.rt_seq_file. Qed.
+Print Assumptions c15_seq_file_partial.
+
+(* D8 (repaired): through "%f" the scanner stores a float; 123456789.123456 comes back as 123456792.0 *)
+Theorem c15_float_look_single_refuted :
+  exists b b', decode_double b <> None /\
+    scan_num (Build_config nil nil true false true) (spec_f false) (print_num (spec_f false) (VFloat b))
+    = Some (VFloat b', 16) /\ b = 4728057454355442549%N /\ b' = 4728057454548484096%N.
+Proof. exact RoundTripFloat.float_look_single_refuted. Qed.
+Print Assumptions c15_float_look_single_refuted.
+
+(* F6 (repaired): %d without `l` zero-extended negatives *)
+Theorem c15_scan_d_zero_extends_refuted :
+  exists z, (- two31 <= z < two31)%Z /\
+    scan_num cfg_no_signext spec_d (print_num spec_d (VInt z)) <> Some (VInt z, length (print_num spec_d (VInt z))).
+Proof. exact RoundTripInst.rt_scan_d_zero_extends_refuted. Qed.
+Print Assumptions c15_scan_d_zero_extends_refuted.
+
 (* non-vacuity *)
 Example c15_ex_nul_free : nul_free ex_string.
 Proof. exact RoundTripInst.ex_nul_free. Qed.
 Example c15_ex_show_seq_ok : show_seq_ok rt_cfg ex_items ex_rest.
 Proof. exact RoundTripInst.ex_show_seq_ok. Qed.
+Example c15_ex_wf_seq : wf_seq rt_cfg ex_items_f ex_sitems_f ex_rest.
+Proof. exact RoundTripInst.ex_wf_seq. Qed.
+Example c15_ex_finite : finite 4728057454355442549%N.
+Proof. exact RoundTripInst.ex_finite. Qed.
